@@ -887,3 +887,17 @@ GROUPS["p14"] += [
       "                to_remove.extend(tok_span.start + 1..tok_span.end);",
       "                to_remove.extend(tok_span.start + 1..=last);", None),
 ]
+
+# C06: a listed word glued to a following period without a dotted entry (the shape of seeded/C06-e) / with one
+_LAT_OLD = "                    .then(WordSet::new(&[\"etc\", \"vs\"]))"
+GROUPS["g26"] += [
+    E("c06-glue-listed-word-without-dotted-entry", ["C06"], "harper-core/src/document.rs", _LAT_OLD,
+      "                    .then(WordSet::new(&[\"etc\", \"vs\", \"Rev\"]))", "R-C06-glue:Document::uncached_latin_pattern:word-set"),
+]
+GROUPS["p14"] += [
+    E("p-c06-glue-with-dotted-entry", ["C06"], "harper-core/src/document.rs", _LAT_OLD,
+      "                    .then(WordSet::new(&[\"etc\", \"vs\", \"rev\"]))", None),
+    E("p-c06-glue-with-dotted-entry-dict", ["C06"], "harper-core/dictionary.dict",
+      "etc./~              # most dictionary only list it with the final dot",
+      "etc./~              # most dictionary only list it with the final dot\nrev./~", None),
+]
